@@ -22,6 +22,7 @@ def _rv(fr):
 
 
 _ONE = None
+DEFAULT_QV = [False]     # name quotients in order comparisons (set per obligation group)
 
 
 class Encoder:
@@ -35,6 +36,8 @@ class Encoder:
         self.absenv = {}
         self.n_groups = 0
         self.keep = []
+        self.quotient_vars = DEFAULT_QV[0]
+        self.qmemo = {}
         if group and roots:
             self._group_exps(list(roots))
 
@@ -239,8 +242,11 @@ class Encoder:
         n, d = self.real(e)
         if d is None:
             return n
-        q = self.fresh('q')
-        self.cons.append(q * d == n)
+        q = self.qmemo.get(e.uid)
+        if q is None:
+            q = self.fresh('q')
+            self.cons.append(q * d == n)
+            self.qmemo[e.uid] = q
         return q
 
     def _uf(self, e):
@@ -323,6 +329,11 @@ class Encoder:
                     r = an < bn if op == 'lt' else (an <= bn if op == 'le' else an == bn)
                 elif op == 'eq':
                     r = _mulo(an, bd) == _mulo(bn, ad)
+                elif self.quotient_vars:
+                    # order comparisons between quotients: name each quotient (q*d == n, d != 0 is a
+                    # separate definedness obligation) so the order constraints stay linear in the q's
+                    x, y = self._asreal(a), self._asreal(b)
+                    r = x < y if op == 'lt' else x <= y
                 else:
                     diff = _mulo(an, bd) - _mulo(bn, ad)      # numerator of a-b over ad*bd
                     den = _mulo2(ad, bd)
